@@ -74,7 +74,8 @@ func verifC18_end() {
 		pc := vBytes("code", 2)
 		code = int64(pc[0])<<8 | int64(pc[1])
 		vAssume(vRefValidWireCode(code))
-		in = append(in, mk(vFrame{fin: true, opcode: 8, payload: pc}))
+		payload := append(append([]byte{}, pc...), vBytes("reason", vChoose("reasonLen", 2)*3)...)
+		in = append(in, mk(vFrame{fin: true, opcode: 8, payload: payload}))
 	}
 	t := vNewTransport(vEncodeFrames(in))
 	t.endMode = vEndBlock
@@ -130,7 +131,7 @@ func verifC18_deadline() {
 	c := vNewConn(t, client, nil, 32, 64)
 	nc := NetConn(vBG, c, MessageBinary)
 	side := vChoose("side", 2) // 0 read, 1 write
-	when := vChoose("when", 3) // 0 past, 1 future that passes while idle, 2 fires during an active call
+	when := vChoose("when", 4) // 0 past, 1 future that passes while idle, 2 fires during an active call, 3 past deadline set during an active call
 	setDL := func(tm time.Time) {
 		if side == 0 {
 			nc.SetReadDeadline(tm)
@@ -169,6 +170,29 @@ func verifC18_deadline() {
 		}
 		err = call()
 		vAssert(err == nil, "C18.deadline.usable-after-reset")
+	case 3:
+		if side == 0 {
+			p := make([]byte, 2)
+			nc.Read(p)
+		} else {
+			t.writeBlock = true
+		}
+		res := make(chan error, 1)
+		go func() { res <- call() }()
+		vGhostSettle() // the call is now blocked on the transport
+		start := vGhostElapsed()
+		setDL(time.Now().Add(-time.Second))
+		var err error
+		select {
+		case err = <-res:
+		case <-time.After(5 * time.Second):
+			vAssert(false, "C18.deadline.past-deadline-interrupts-active-call")
+		}
+		took := vGhostElapsed() - start
+		vReach("C18.deadline.past-during-active")
+		vAssert(vAnd(err != nil, took < time.Second), "C18.deadline.past-deadline-interrupts-active-call")
+		vGhostSettle()
+		vAssert(vNot(vIsOpen(c)), "C18.deadline.active-closes")
 	case 2:
 		if side == 0 {
 			// make the read block: consume the only message first
